@@ -1,6 +1,6 @@
 (* C12 - incremental output equals a clean build; unchanged files are untouched.  Theorems only. *)
 From Coq Require Import Lia.
-From Ructe Require Import Nom Utf8 Emit Compile Md5 Static Tables Build MapProofs BuildProofs.
+From Ructe Require Import Nom Utf8 Emit Compile Md5 Static Tables Build MapProofs BuildProofs PlanPaths.
 Local Open Scope list_scope.
 
 (* write_if_changed: afterwards the path holds the content and no other path changed; a physical
@@ -64,7 +64,65 @@ Section C12.
     cbv zeta in E2, W2. fold pl in E2, W2. rewrite E in E2, W2.
     rewrite (second_run_noop pl fs0 ND V) in E2, W2. cbn [fst snd] in E2, W2. rewrite <- E in E2. split; [rewrite E; exact W2|exact E2].
   Qed.
+
+  (* the same with the side conditions in decidable form: [plan_ok] is evaluated by the extracted
+     driver on every scenario the correspondence check runs, so on each of them the conclusion is a
+     consequence of this theorem and not only an observation *)
+  Theorem second_run_writes_nothing_checked : forall tree base cs fs0,
+    plan_ok (plan (fst (script tree base cs))) = true ->
+    r_writes (build tree base (r_fs (build tree base fs0 cs)) cs) = [] /\
+    r_fs (build tree base (r_fs (build tree base fs0 cs)) cs) = r_fs (build tree base fs0 cs).
+  Proof.
+    intros tree base cs fs0 H. apply second_run_writes_nothing.
+    - apply nodupb_spec. unfold plan_ok in H. apply andb_true_iff in H. tauto.
+    - unfold plan_ok in H. apply andb_true_iff in H. destruct H as [_ H]. apply Forall_forall. intros pc I.
+      rewrite forallb_forall in H. now apply H.
+  Qed.
+
+  (* the first side condition discharged: on a well-formed input tree (the entry names of a
+     directory pairwise distinct and free of '/', as in any file system) a successful build script
+     that calls compile_templates at most once and uses at most one StaticFiles, in either order,
+     plans every file of OUT_DIR at most once -- by the mirror structure of the walk and the
+     injectivity of the generated file names *)
+  Theorem planned_paths_distinct : forall tree base cs,
+    wf_node tree -> shape_ok false false cs = true -> snd (script tree base cs) = true ->
+    NoDup (map fst (plan (fst (script tree base cs)))).
+  Proof. exact (script_paths_distinct uni_esc uni_alnum compile utils_src statics_header mm). Qed.
+
+  Theorem second_run_writes_nothing_documented_shape : forall tree base cs fs0,
+    wf_node tree -> shape_ok false false cs = true -> snd (script tree base cs) = true ->
+    Forall (fun pc => utf8_valid (snd pc) = true) (plan (fst (script tree base cs))) ->
+    r_writes (build tree base (r_fs (build tree base fs0 cs)) cs) = [] /\
+    r_fs (build tree base (r_fs (build tree base fs0 cs)) cs) = r_fs (build tree base fs0 cs).
+  Proof.
+    intros tree base cs fs0 W S K V. apply second_run_writes_nothing; [|exact V]. now apply planned_paths_distinct.
+  Qed.
 End C12.
+
+(* the shape condition is needed: two compile_templates calls on directories that share a
+   sub-directory name plan templates/sub/mod.rs twice with different contents, so every run rewrites it *)
+Example two_walks_sharing_a_directory_name_collide :
+  let tree := Dir [(b "t1", Dir [(b "sub", Dir [(b "a.rs.html", File (b "A"))])]);
+                   (b "t2", Dir [(b "sub", Dir [(b "b.rs.html", File (b "B"))])])] in
+  let compile := fun name content => Accepted (name ++ b ":" ++ content) in
+  let cs := [PCompile (b "t1"); PCompile (b "t2")] in
+  let r1 := run_build (fun _ => false) (fun _ => false) compile (b "U") [] MNone tree (b "/b") [] cs in
+  let r2 := run_build (fun _ => false) (fun _ => false) compile (b "U") [] MNone tree (b "/b") (r_fs r1) cs in
+  wf_node tree /\ r_ok r1 = true /\ shape_ok false false cs = false /\ r_writes r2 = [b "templates/sub/mod.rs"; b "templates/sub/mod.rs"].
+Proof.
+  split; [|vm_compute; repeat split; reflexivity].
+  cbn [wf_node]. constructor; [repeat constructor; cbn; intuition discriminate| |].
+  - intros n x [[= <- <-]|[[= <- <-]|[]]] J; cbn in J; intuition discriminate.
+  - intros n sub [[= <- <-]|[[= <- <-]|[]]]; (constructor; [repeat constructor; cbn; intuition discriminate| |]).
+    + intros n x [[= <- <-]|[]] J; cbn in J; intuition discriminate.
+    + intros n s [[= <- <-]|[]]. constructor; [repeat constructor; cbn; intuition discriminate| |].
+      * intros n x [[= <- <-]|[]] J; cbn in J; intuition discriminate.
+      * intros n s [[=]|[]].
+    + intros n x [[= <- <-]|[]] J; cbn in J; intuition discriminate.
+    + intros n s [[= <- <-]|[]]. constructor; [repeat constructor; cbn; intuition discriminate| |].
+      * intros n x [[= <- <-]|[]] J; cbn in J; intuition discriminate.
+      * intros n s [[=]|[]].
+Qed.
 
 (* a state left behind by a build that died at a write is just another prior OUT_DIR: the two
    theorems above quantify over every fs0, so they cover every crash point and every truncation *)
@@ -79,3 +137,7 @@ Redirect "assumptions/C12.write_if_changed_spec" Print Assumptions write_if_chan
 Redirect "assumptions/C12.write_plan_independent_of_outdir" Print Assumptions write_plan_independent_of_outdir.
 Redirect "assumptions/C12.generated_files_equal_clean_build" Print Assumptions generated_files_equal_clean_build.
 Redirect "assumptions/C12.second_run_writes_nothing" Print Assumptions second_run_writes_nothing.
+Redirect "assumptions/C12.planned_paths_distinct" Print Assumptions planned_paths_distinct.
+Redirect "assumptions/C12.second_run_writes_nothing_documented_shape" Print Assumptions second_run_writes_nothing_documented_shape.
+Redirect "assumptions/C12.two_walks_sharing_a_directory_name_collide" Print Assumptions two_walks_sharing_a_directory_name_collide.
+Redirect "assumptions/C12.second_run_writes_nothing_checked" Print Assumptions second_run_writes_nothing_checked.
